@@ -549,6 +549,7 @@ fn main() {
             rotate_batches: if stage.coordinates { 2 } else { 12 },
             compare_within_group: true,
             coordinates: stage.coordinates,
+            spellings: false,
         };
         let t0 = Instant::now();
         let outcomes: Vec<Outcome> = util::par_map(
